@@ -400,6 +400,8 @@ def main():
     gen_ok, gen_msg = C.gen_consts()
     if not gen_ok:
         broken.append("generation: " + gen_msg)
+    elif "WARNING" in gen_msg:
+        notes.append(gen_msg)
 
     # 2. proof
     proof = {"ok": True, "n_theorems": 0, "n_discharged": 0, "axioms": [], "problems": []}
